@@ -9,6 +9,7 @@ here=$(cd "$(dirname "$0")/.." && pwd)
 kind=$1; bin=${2:-$here/bin/chfcheck}; jobs=${JOBS:-8}
 case $kind in
   seeds) list=$(ls -d $here/seeded/C*/ | while read d; do echo "$(basename $d) $d/patch.diff"; done) ;;
+  seed5) list=$(ls /tmp/seed5/C*-out/*/patch.diff | while read p; do d=$(dirname $p); echo "$(basename $(dirname $d) | sed 's/-out//')-5$(basename $d) $p"; done) ;;
   rf)    list=$(ls $here/refactorings/C*/r*.diff | while read p; do echo "$(basename $(dirname $p))/$(basename $p .diff) $p"; done) ;;
   rfamb) list=$(ls $here/refactorings-ambitious/C*/r*.diff | while read p; do echo "$(basename $(dirname $p))/$(basename $p .diff) $p"; done) ;;
   *)     list=$(ls $kind/*/r*.diff $kind/r*.diff 2>/dev/null | while read p; do echo "$(basename $(dirname $p))/$(basename $p .diff) $p"; done) ;;
@@ -20,6 +21,7 @@ one() {
   if ! (cd "$wt" && git apply "$patch" 2>/dev/null); then echo "$id SKIPPED"; rm -rf "$wt"; return; fi
   out=$("$bin" -property all -tier quick -evidence-dir none -repo "$wt" 2>&1); code=$?
   rm -rf "$wt"
+  [ -n "${DETAIL_DIR:-}" ] && { mkdir -p "$DETAIL_DIR"; echo "$out" > "$DETAIL_DIR/$(echo $id | tr / _).out"; }
   rules=$(echo "$out" | grep -E "^  violation|CHECKER-BROKEN" | sed -E 's/^  violation (C[0-9]+\.[A-Za-z0-9]+)\|vacuity.*/\1(vacuity)/; s/^  violation (C[0-9]+\.[A-Za-z0-9]+)\|.*/\1/; s/CHECKER-BROKEN: property=(C[0-9]+).*/\1.BROKEN/; s/^CHECKER-BROKEN.*/ALL.BROKEN/' | sort -u | tr '\n' ' ')
   if [ $code -eq 0 ]; then echo "$id silent"; else echo "$id ALARM exit=$code $rules"; fi
 }
